@@ -348,6 +348,7 @@ META["C06"] = dict(
         "st.node.dataclass-in-list": g(30, 300), "st.node.init_args": g(30, 300), "st.node.init_args-nested": g(30, 300),
         "st.node.init_args-in-list": g(30, 300), "st.node.class-group": g(30, 300), "st.node.inner-parser": g(30, 300),
         "st.node.subcommand-section": g(30, 300), "st.node.subcommand-section-level2": g(5, 100),
+        "st.node.dict_kwargs-of-class-without-var-keyword": g(10, 100),
         "st.required.required-option": g(30, 300), "st.required.required-subcommand": g(30, 300),
         "st.required.required-param-of-selected-class": g(30, 300), "st.required.required-dataclass-field": g(30, 300),
         "st.required.required-option-of-subcommand": g(20, 200), "st.required.required-option-of-subcommand-level2": g(10, 100),
